@@ -27,12 +27,11 @@ Qed.
 Lemma evict_no_pressure now keep t : zlen t <= SSRC_CONTEXT_HIGH_WATERMARK -> evict now keep t = t.
 Proof. intros H. unfold evict. apply Z.leb_le in H. rewrite H. reflexivity. Qed.
 
-(* the context a session would use for an SSRC: the stored one, else a fresh one *)
-Definition effective (c : crypto) (p : SrtpProfile) (k : bytes * bytes) (ssrc : Z) (t : list entry) : option ctx :=
-  match lookup ssrc t with
-  | Some e => Some (en_ctx e)
-  | None => ctx_new c ssrc p (fst k) (snd k)
-  end.
+Lemma store_length e t : zlen (store e t) = slots (en_ssrc e) t.
+Proof.
+  unfold slots, zlen. induction t as [|x t IH]; cbn [store lookup length]; [lia|].
+  destruct (Z.eqb_spec (en_ssrc x) (en_ssrc e)); cbn [length]; lia.
+Qed.
 
 Lemma acquire_no_pressure c p k now ssrc t :
   zlen t <= SSRC_CONTEXT_HIGH_WATERMARK ->
@@ -42,17 +41,97 @@ Proof.
   destruct (lookup ssrc t); [reflexivity|]. destruct (ctx_new _ _ _ _ _); reflexivity.
 Qed.
 
+Definition same_cfg (s s' : session) : Prop :=
+  s_prof s' = s_prof s /\ s_txk s' = s_txk s /\ s_rxk s' = s_rxk s.
+
+(* ---- the sending side, generically (sess_protect_rtp / sess_protect_rtcp share this shape) *)
+Definition with_tx {A : Type} (c : crypto) (s : session) (now a : Z) (op : ctx -> res A * ctx) : res A * session :=
+  match acquire c (s_prof s) (s_txk s) now a (s_tx s) with
+  | None => (Err EUnsupported, set_tx s (evict now a (s_tx s)))
+  | Some (x, t1) => let '(r, x') := op x in (r, set_tx s (store (mkEntry a x' now) t1))
+  end.
+
+Lemma sess_protect_rtp_with c s now p :
+  sess_protect_rtp c s now p = with_tx c s now (h_ssrc (r_hdr p)) (fun x => protect c x p).
+Proof. reflexivity. Qed.
+Lemma sess_protect_rtcp_with c s now pkt :
+  sess_protect_rtcp c s now pkt =
+  if zlen pkt <? SESSION_RTCP_MIN_PLAIN then (Err ETooShort, s)
+  else with_tx c s now (rtcp_ssrc pkt) (fun x => protect_rtcp c x pkt).
+Proof. reflexivity. Qed.
+
+Lemma with_tx_product {A} c s now a (op : ctx -> res A * ctx) :
+  zlen (s_tx s) <= SSRC_CONTEXT_HIGH_WATERMARK ->
+  let s' := snd (with_tx c s now a op) in
+  same_cfg s s' /\ s_rx s' = s_rx s /\
+  (forall b, b <> a -> lookup b (s_tx s') = lookup b (s_tx s)) /\
+  (forall x, effective c (s_prof s) (s_txk s) a (s_tx s) = Some x ->
+     fst (with_tx c s now a op) = fst (op x) /\
+     effective c (s_prof s) (s_txk s) a (s_tx s') = Some (snd (op x))) /\
+  (effective c (s_prof s) (s_txk s) a (s_tx s) = None -> s_tx s' = s_tx s).
+Proof.
+  intros Hp. unfold with_tx. rewrite acquire_no_pressure, evict_no_pressure by assumption.
+  destruct (effective c (s_prof s) (s_txk s) a (s_tx s)) as [x|] eqn:He; cbn [option_map].
+  - destruct (op x) as [r x'] eqn:Eo. cbn [snd fst set_tx s_tx s_rx s_prof s_txk s_rxk].
+    split; [repeat split|]. split; [reflexivity|]. split; [|split].
+    + intros b Hb. apply lookup_store_other. cbn [en_ssrc]. congruence.
+    + intros y Hy. inversion Hy; subst. rewrite Eo. split; [reflexivity|]. cbn [snd]. unfold effective.
+      change a with (en_ssrc (mkEntry a x' now)) at 1. rewrite lookup_store_same. reflexivity.
+    + discriminate.
+  - cbn [snd fst set_tx s_tx s_rx s_prof s_txk s_rxk].
+    split; [repeat split|]. split; [reflexivity|]. split; [reflexivity|]. split; [discriminate|reflexivity].
+Qed.
+
+(* ---- the receiving side (SrtpSession::with_rx_context) *)
+Lemma with_rx_reject {A} c s now a (op : ctx -> res A * ctx) :
+  is_ok (fst (with_rx c s now a op)) = false -> snd (with_rx c s now a op) = s.
+Proof.
+  unfold with_rx. destruct (effective _ _ _ _ _) as [x|]; [|reflexivity].
+  destruct (op x) as [r x']. destruct (is_ok r) eqn:E; cbn [fst snd]; [congruence|reflexivity].
+Qed.
+
+Lemma with_rx_product {A} c s now a (op : ctx -> res A * ctx) :
+  (forall x r x', op x = (r, x') -> is_ok r = false -> x' = x) ->
+  slots a (s_rx s) <= SSRC_CONTEXT_HIGH_WATERMARK ->
+  let s' := snd (with_rx c s now a op) in
+  same_cfg s s' /\ s_tx s' = s_tx s /\
+  (forall b, b <> a -> lookup b (s_rx s') = lookup b (s_rx s)) /\
+  (forall x, effective c (s_prof s) (s_rxk s) a (s_rx s) = Some x ->
+     fst (with_rx c s now a op) = fst (op x) /\
+     effective c (s_prof s) (s_rxk s) a (s_rx s') = Some (snd (op x))) /\
+  (effective c (s_prof s) (s_rxk s) a (s_rx s) = None -> s_rx s' = s_rx s).
+Proof.
+  intros Hrej Hp. unfold with_rx.
+  destruct (effective c (s_prof s) (s_rxk s) a (s_rx s)) as [x|] eqn:He.
+  - destruct (op x) as [r x'] eqn:Eo. destruct (is_ok r) eqn:Er; cbn [snd fst].
+    + rewrite evict_no_pressure by (rewrite store_length; exact Hp).
+      cbn [set_rx s_tx s_rx s_prof s_txk s_rxk].
+      split; [repeat split|]. split; [reflexivity|]. split; [|split].
+      * intros b Hb. apply lookup_store_other. cbn [en_ssrc]. congruence.
+      * intros y Hy. inversion Hy; subst. rewrite Eo. split; [reflexivity|]. cbn [snd]. unfold effective.
+        change a with (en_ssrc (mkEntry a x' now)) at 1. rewrite lookup_store_same. reflexivity.
+      * discriminate.
+    + split; [repeat split|]. split; [reflexivity|]. split; [reflexivity|]. split; [|discriminate].
+      intros y Hy. inversion Hy; subst. rewrite Eo. split; [reflexivity|]. cbn [snd].
+      rewrite (Hrej _ _ _ Eo Er). exact He.
+  - cbn [snd fst]. split; [repeat split|]. split; [reflexivity|]. split; [reflexivity|]. split; [discriminate|reflexivity].
+Qed.
+
+Lemma unprotect_rejp c sp : forall x r x', unprotect c x sp = (r, x') -> is_ok r = false -> x' = x.
+Proof. intros x r x'. apply reject_preserves_rtp. Qed.
+Lemma unprotect_rtcp_rejp c pkt : forall x r x', unprotect_rtcp c x pkt = (r, x') -> is_ok r = false -> x' = x.
+Proof. intros x r x'. apply reject_preserves_rtcp. Qed.
+
 (* ---- C04_ssrc_frame: an operation on SSRC a leaves every other SSRC's context (and the other
    direction's table) exactly as it was, as long as the table is not under eviction pressure *)
 Theorem frame_unprotect_rtp c s now sp b :
-  zlen (s_rx s) <= SSRC_CONTEXT_HIGH_WATERMARK -> b <> h_ssrc (sp_hdr sp) ->
+  slots (h_ssrc (sp_hdr sp)) (s_rx s) <= SSRC_CONTEXT_HIGH_WATERMARK -> b <> h_ssrc (sp_hdr sp) ->
   lookup b (s_rx (snd (sess_unprotect_rtp c s now sp))) = lookup b (s_rx s) /\
   s_tx (snd (sess_unprotect_rtp c s now sp)) = s_tx s.
 Proof.
-  intros Hp Hb. unfold sess_unprotect_rtp. rewrite acquire_no_pressure, evict_no_pressure by assumption.
-  destruct (effective _ _ _ _ _) as [x|]; cbn [option_map]; [|split; reflexivity].
-  destruct (unprotect c x sp) as [r x']. cbn [snd set_rx s_rx s_tx]. split; [|reflexivity].
-  apply lookup_store_other. cbn [en_ssrc]. congruence.
+  intros Hp Hb. unfold sess_unprotect_rtp.
+  destruct (with_rx_product c s now (h_ssrc (sp_hdr sp)) (fun x => unprotect c x sp) (unprotect_rejp c sp) Hp)
+    as (_ & Ht & Hf & _). split; [apply Hf; exact Hb|exact Ht].
 Qed.
 
 Theorem frame_protect_rtp c s now p b :
@@ -60,22 +139,19 @@ Theorem frame_protect_rtp c s now p b :
   lookup b (s_tx (snd (sess_protect_rtp c s now p))) = lookup b (s_tx s) /\
   s_rx (snd (sess_protect_rtp c s now p)) = s_rx s.
 Proof.
-  intros Hp Hb. unfold sess_protect_rtp. rewrite acquire_no_pressure, evict_no_pressure by assumption.
-  destruct (effective _ _ _ _ _) as [x|]; cbn [option_map]; [|split; reflexivity].
-  destruct (protect c x p) as [r x']. cbn [snd set_tx s_rx s_tx]. split; [|reflexivity].
-  apply lookup_store_other. cbn [en_ssrc]. congruence.
+  intros Hp Hb. rewrite sess_protect_rtp_with.
+  destruct (with_tx_product c s now (h_ssrc (r_hdr p)) (fun x => protect c x p) Hp) as (_ & Hr & Hf & _).
+  split; [apply Hf; exact Hb|exact Hr].
 Qed.
 
 Theorem frame_unprotect_rtcp c s now pkt b :
-  zlen (s_rx s) <= SSRC_CONTEXT_HIGH_WATERMARK -> b <> rtcp_ssrc pkt ->
+  slots (rtcp_ssrc pkt) (s_rx s) <= SSRC_CONTEXT_HIGH_WATERMARK -> b <> rtcp_ssrc pkt ->
   lookup b (s_rx (snd (sess_unprotect_rtcp c s now pkt))) = lookup b (s_rx s) /\
   s_tx (snd (sess_unprotect_rtcp c s now pkt)) = s_tx s.
 Proof.
   intros Hp Hb. unfold sess_unprotect_rtcp. destruct (_ <? _); [split; reflexivity|].
-  rewrite acquire_no_pressure, evict_no_pressure by assumption.
-  destruct (effective _ _ _ _ _) as [x|]; cbn [option_map]; [|split; reflexivity].
-  destruct (unprotect_rtcp c x pkt) as [r x']. cbn [snd set_rx s_rx s_tx]. split; [|reflexivity].
-  apply lookup_store_other. cbn [en_ssrc]. congruence.
+  destruct (with_rx_product c s now (rtcp_ssrc pkt) (fun x => unprotect_rtcp c x pkt) (unprotect_rtcp_rejp c pkt) Hp)
+    as (_ & Ht & Hf & _). split; [apply Hf; exact Hb|exact Ht].
 Qed.
 
 Theorem frame_protect_rtcp c s now pkt b :
@@ -83,26 +159,22 @@ Theorem frame_protect_rtcp c s now pkt b :
   lookup b (s_tx (snd (sess_protect_rtcp c s now pkt))) = lookup b (s_tx s) /\
   s_rx (snd (sess_protect_rtcp c s now pkt)) = s_rx s.
 Proof.
-  intros Hp Hb. unfold sess_protect_rtcp. destruct (_ <? _); [split; reflexivity|].
-  rewrite acquire_no_pressure, evict_no_pressure by assumption.
-  destruct (effective _ _ _ _ _) as [x|]; cbn [option_map]; [|split; reflexivity].
-  destruct (protect_rtcp c x pkt) as [r x']. cbn [snd set_tx s_rx s_tx]. split; [|reflexivity].
-  apply lookup_store_other. cbn [en_ssrc]. congruence.
+  intros Hp Hb. rewrite sess_protect_rtcp_with. destruct (_ <? _); [split; reflexivity|].
+  destruct (with_tx_product c s now (rtcp_ssrc pkt) (fun x => protect_rtcp c x pkt) Hp) as (_ & Hr & Hf & _).
+  split; [apply Hf; exact Hb|exact Hr].
 Qed.
 
 (* ---- on its own SSRC a session operation IS the context operation on the effective context *)
 Theorem own_unprotect_rtp c s now sp x :
-  zlen (s_rx s) <= SSRC_CONTEXT_HIGH_WATERMARK ->
+  slots (h_ssrc (sp_hdr sp)) (s_rx s) <= SSRC_CONTEXT_HIGH_WATERMARK ->
   effective c (s_prof s) (s_rxk s) (h_ssrc (sp_hdr sp)) (s_rx s) = Some x ->
   fst (sess_unprotect_rtp c s now sp) = fst (unprotect c x sp) /\
   effective c (s_prof s) (s_rxk s) (h_ssrc (sp_hdr sp)) (s_rx (snd (sess_unprotect_rtp c s now sp))) =
     Some (snd (unprotect c x sp)).
 Proof.
-  intros Hp He. unfold sess_unprotect_rtp. rewrite acquire_no_pressure by assumption. rewrite He. cbn [option_map].
-  destruct (unprotect c x sp) as [r x']. cbn [fst snd set_rx s_rx s_prof s_rxk]. split; [reflexivity|].
-  unfold effective.
-  change (h_ssrc (sp_hdr sp)) with (en_ssrc (mkEntry (h_ssrc (sp_hdr sp)) x' now)) at 1.
-  rewrite lookup_store_same. reflexivity.
+  intros Hp He. unfold sess_unprotect_rtp.
+  destruct (with_rx_product c s now (h_ssrc (sp_hdr sp)) (fun x => unprotect c x sp) (unprotect_rejp c sp) Hp)
+    as (_ & _ & _ & Ho & _). exact (Ho x He).
 Qed.
 
 Theorem own_protect_rtp c s now p x :
@@ -112,56 +184,160 @@ Theorem own_protect_rtp c s now p x :
   effective c (s_prof s) (s_txk s) (h_ssrc (r_hdr p)) (s_tx (snd (sess_protect_rtp c s now p))) =
     Some (snd (protect c x p)).
 Proof.
-  intros Hp He. unfold sess_protect_rtp. rewrite acquire_no_pressure by assumption. rewrite He. cbn [option_map].
-  destruct (protect c x p) as [r x']. cbn [fst snd set_tx s_tx s_prof s_txk]. split; [reflexivity|].
-  unfold effective.
-  change (h_ssrc (r_hdr p)) with (en_ssrc (mkEntry (h_ssrc (r_hdr p)) x' now)) at 1.
-  rewrite lookup_store_same. reflexivity.
+  intros Hp He. rewrite sess_protect_rtp_with.
+  destruct (with_tx_product c s now (h_ssrc (r_hdr p)) (fun x => protect c x p) Hp) as (_ & _ & _ & Ho & _).
+  exact (Ho x He).
 Qed.
 
-(* ---- C05 at session level: a rejected packet leaves the EFFECTIVE context of every SSRC unchanged
-   (a context created by a forgery is indistinguishable from no context), absent eviction pressure *)
-Theorem session_reject_preserves_rtp c s now sp b :
-  zlen (s_rx s) <= SSRC_CONTEXT_HIGH_WATERMARK ->
-  is_ok (fst (sess_unprotect_rtp c s now sp)) = false ->
-  effective c (s_prof s) (s_rxk s) b (s_rx (snd (sess_unprotect_rtp c s now sp))) =
-  effective c (s_prof s) (s_rxk s) b (s_rx s) /\
-  s_tx (snd (sess_unprotect_rtp c s now sp)) = s_tx s.
+(* ---- C05 at session level (after the F23 fix): a rejected datagram -- known or unknown SSRC, with or
+   without table pressure -- leaves the WHOLE session exactly as it was: no context is created, no
+   last_used refreshed, nothing evicted *)
+Theorem session_reject_preserves_rtp c s now sp :
+  is_ok (fst (sess_unprotect_rtp c s now sp)) = false -> snd (sess_unprotect_rtp c s now sp) = s.
+Proof. unfold sess_unprotect_rtp. apply with_rx_reject. Qed.
+
+Theorem session_reject_preserves_rtcp c s now pkt :
+  is_ok (fst (sess_unprotect_rtcp c s now pkt)) = false -> snd (sess_unprotect_rtcp c s now pkt) = s.
 Proof.
-  intros Hp Hr. destruct (Z.eq_dec b (h_ssrc (sp_hdr sp))) as [->|Hne].
-  - destruct (effective c (s_prof s) (s_rxk s) (h_ssrc (sp_hdr sp)) (s_rx s)) as [x|] eqn:He.
-    + destruct (own_unprotect_rtp c s now sp x Hp He) as [H1 H2]. rewrite H1 in Hr.
+  unfold sess_unprotect_rtcp. destruct (_ <? _); [reflexivity|]. apply with_rx_reject.
+Qed.
+
+(* ------------------------------------------------------------------ histories: a session is the
+   product of independent per-(direction, SSRC) contexts *)
+Lemma skey_eqb_eq a b : skey_eqb a b = true <-> a = b.
+Proof.
+  destruct a as [d1 z1], b as [d2 z2]. unfold skey_eqb. cbn [fst snd]. split.
+  - intros H. apply andb_true_iff in H. destruct H as [H1 H2].
+    apply Bool.eqb_prop in H1. apply Z.eqb_eq in H2. congruence.
+  - intros H. inversion H; subst. rewrite Bool.eqb_reflx, Z.eqb_refl. reflexivity.
+Qed.
+
+Lemma effective_lookup c p k b t t' : lookup b t' = lookup b t -> effective c p k b t' = effective c p k b t.
+Proof. unfold effective. intros ->. reflexivity. Qed.
+
+Lemma eff_frame c s s' (d : bool) (a : Z) :
+  same_cfg s s' ->
+  (if d return Prop then s_rx s' = s_rx s /\ (forall b, b <> a -> lookup b (s_tx s') = lookup b (s_tx s))
+   else s_tx s' = s_tx s /\ (forall b, b <> a -> lookup b (s_rx s') = lookup b (s_rx s))) ->
+  forall k', k' <> (d, a) -> eff c s' k' = eff c s k'.
+Proof.
+  intros (C1 & C2 & C3) H [d' b] Hne. unfold eff. cbn [fst snd]. rewrite C1, C2, C3.
+  destruct d, d'; destruct H as [H1 H2]; try (rewrite H1; reflexivity).
+  - apply effective_lookup, H2. congruence.
+  - apply effective_lookup, H2. congruence.
+Qed.
+
+Lemma step_product c s now o :
+  step_calm s o ->
+  (forall k', k' <> sop_key o -> eff c (snd (sess_step c s now o)) k' = eff c s k') /\
+  (forall x, eff c s (sop_key o) = Some x ->
+     fst (sess_step c s now o) = fst (ctx_step c x o) /\
+     eff c (snd (sess_step c s now o)) (sop_key o) = Some (snd (ctx_step c x o))).
+Proof.
+  unfold step_calm. destruct o as [p|sp|pkt|pkt]; cbn [sop_key fst snd sess_step ctx_step]; intros Hc.
+  - rewrite sess_protect_rtp_with.
+    destruct (with_tx_product c s now (h_ssrc (r_hdr p)) (fun x => protect c x p) Hc) as (Cf & Hr & Hf & Ho & _).
+    destruct (with_tx c s now (h_ssrc (r_hdr p)) (fun x => protect c x p)) as [r s'] eqn:E. cbn [fst snd] in *.
+    split.
+    + apply (eff_frame c s s' true); [exact Cf|]. split; assumption.
+    + intros x Hx. unfold eff in *. cbn [fst snd] in *. destruct Cf as (C1 & C2 & C3).
+      destruct (Ho x Hx) as [H1 H2]. destruct (protect c x p) as [r0 x0]. cbn [fst snd] in *.
+      rewrite C1, C2. subst. auto.
+  - unfold sess_unprotect_rtp.
+    destruct (with_rx_product c s now (h_ssrc (sp_hdr sp)) (fun x => unprotect c x sp) (unprotect_rejp c sp) Hc)
+      as (Cf & Ht & Hf & Ho & _).
+    destruct (with_rx c s now (h_ssrc (sp_hdr sp)) (fun x => unprotect c x sp)) as [r s'] eqn:E. cbn [fst snd] in *.
+    split.
+    + apply (eff_frame c s s' false); [exact Cf|]. split; assumption.
+    + intros x Hx. unfold eff in *. cbn [fst snd] in *. destruct Cf as (C1 & C2 & C3).
+      destruct (Ho x Hx) as [H1 H2]. destruct (unprotect c x sp) as [r0 x0]. cbn [fst snd] in *.
+      rewrite C1, C3. subst. auto.
+  - rewrite sess_protect_rtcp_with. destruct (zlen pkt <? SESSION_RTCP_MIN_PLAIN).
+    + cbn [fst snd]. split; [reflexivity|]. intros x Hx. auto.
+    + destruct (with_tx_product c s now (rtcp_ssrc pkt) (fun x => protect_rtcp c x pkt) Hc) as (Cf & Hr & Hf & Ho & _).
+      destruct (with_tx c s now (rtcp_ssrc pkt) (fun x => protect_rtcp c x pkt)) as [r s'] eqn:E. cbn [fst snd] in *.
       split.
-      * rewrite H2. f_equal. destruct (unprotect c x sp) as [r x'] eqn:E. cbn [fst snd] in *.
-        apply (reject_preserves_rtp c x sp r x' E Hr).
-      * unfold sess_unprotect_rtp. rewrite acquire_no_pressure by assumption. rewrite He. cbn [option_map].
-        destruct (unprotect c x sp). reflexivity.
-    + unfold sess_unprotect_rtp. rewrite acquire_no_pressure, evict_no_pressure by assumption. rewrite He.
-      cbn [option_map snd set_rx s_rx s_tx]. split; [exact He|reflexivity].
-  - destruct (frame_unprotect_rtp c s now sp b Hp Hne) as [H1 H2]. split; [|exact H2].
-    unfold effective. rewrite H1. reflexivity.
+      * apply (eff_frame c s s' true); [exact Cf|]. split; assumption.
+      * intros x Hx. unfold eff in *. cbn [fst snd] in *. destruct Cf as (C1 & C2 & C3).
+        destruct (Ho x Hx) as [H1 H2]. destruct (protect_rtcp c x pkt) as [r0 x0]. cbn [fst snd] in *.
+        rewrite C1, C2. subst. auto.
+  - unfold sess_unprotect_rtcp. destruct (zlen pkt <? SESSION_RTCP_MIN_PROTECTED).
+    + cbn [fst snd]. split; [reflexivity|]. intros x Hx. auto.
+    + destruct (with_rx_product c s now (rtcp_ssrc pkt) (fun x => unprotect_rtcp c x pkt) (unprotect_rtcp_rejp c pkt) Hc)
+        as (Cf & Ht & Hf & Ho & _).
+      destruct (with_rx c s now (rtcp_ssrc pkt) (fun x => unprotect_rtcp c x pkt)) as [r s'] eqn:E. cbn [fst snd] in *.
+      split.
+      * apply (eff_frame c s s' false); [exact Cf|]. split; assumption.
+      * intros x Hx. unfold eff in *. cbn [fst snd] in *. destruct Cf as (C1 & C2 & C3).
+        destruct (Ho x Hx) as [H1 H2]. destruct (unprotect_rtcp c x pkt) as [r0 x0]. cbn [fst snd] in *.
+        rewrite C1, C3. subst. auto.
 Qed.
 
-Theorem session_reject_preserves_rtcp c s now pkt b :
-  zlen (s_rx s) <= SSRC_CONTEXT_HIGH_WATERMARK ->
-  is_ok (fst (sess_unprotect_rtcp c s now pkt)) = false ->
-  effective c (s_prof s) (s_rxk s) b (s_rx (snd (sess_unprotect_rtcp c s now pkt))) =
-  effective c (s_prof s) (s_rxk s) b (s_rx s) /\
-  s_tx (snd (sess_unprotect_rtcp c s now pkt)) = s_tx s.
+(* C04_session_is_product: for EVERY history of protect / unprotect operations (SRTP and SRTCP, any
+   SSRCs, any interleaving, any times) that runs without eviction pressure, and every (direction,
+   SSRC): the outputs the session produced for that pair, and the pair's context afterwards, are those
+   of a single SrtpContext run over the pair's sub-history *)
+Theorem session_is_product c : forall l s k x,
+  calm c s l -> eff c s k = Some x ->
+  sub_outs k (fst (sess_run c s l)) = fst (ctx_run c x (sub_ops k l)) /\
+  eff c (snd (sess_run c s l)) k = Some (snd (ctx_run c x (sub_ops k l))).
 Proof.
-  intros Hp Hr. unfold sess_unprotect_rtcp in *. destruct (_ <? _); [split; reflexivity|].
-  rewrite acquire_no_pressure, evict_no_pressure in * by assumption.
-  destruct (effective c (s_prof s) (s_rxk s) (rtcp_ssrc pkt) (s_rx s)) as [x|] eqn:He; cbn [option_map] in *.
-  - destruct (unprotect_rtcp c x pkt) as [r x'] eqn:E. cbn [fst snd set_rx s_rx s_tx] in *.
-    split; [|reflexivity].
-    pose proof (reject_preserves_rtcp c x pkt r x' E Hr) as ->.
-    unfold effective. destruct (Z.eq_dec b (rtcp_ssrc pkt)) as [->|Hne].
-    + change (rtcp_ssrc pkt) with (en_ssrc (mkEntry (rtcp_ssrc pkt) x now)) at 1.
-      rewrite lookup_store_same. unfold effective in He. cbn [en_ctx].
-      destruct (lookup (rtcp_ssrc pkt) (s_rx s)); congruence.
-    + rewrite lookup_store_other by (cbn [en_ssrc]; congruence). reflexivity.
-  - cbn [snd set_rx s_rx s_tx]. split; reflexivity.
+  induction l as [|[now o] l IH]; intros s k x Hc He.
+  - cbn. auto.
+  - cbn [calm] in Hc. destruct Hc as [Hs Hc].
+    destruct (step_product c s now o Hs) as [Hf Ho].
+    cbn [sess_run]. destruct (sess_step c s now o) as [out s1] eqn:Es. cbn [snd fst] in *.
+    unfold sub_ops, sub_outs. cbn [filter snd fst].
+    destruct (skey_eqb (sop_key o) k) eqn:Ek.
+    + apply skey_eqb_eq in Ek. subst k. destruct (Ho x He) as [H1 H2].
+      destruct (ctx_step c x o) as [out' x1] eqn:Ec. cbn [fst snd] in *. subst out'.
+      destruct (IH s1 (sop_key o) x1 Hc H2) as [I1 I2].
+      destruct (sess_run c s1 l) as [outs s2]. cbn [fst snd filter map] in *.
+      rewrite (proj2 (skey_eqb_eq _ _) eq_refl). cbn [map snd ctx_run]. rewrite Ec.
+      fold (sub_ops (sop_key o) l). fold (sub_outs (sop_key o) outs).
+      destruct (ctx_run c x1 (sub_ops (sop_key o) l)) as [os x2]. cbn [fst snd] in *. rewrite I1. auto.
+    + assert (Hne : k <> sop_key o).
+      { intros ->. rewrite (proj2 (skey_eqb_eq _ _) eq_refl) in Ek. discriminate. }
+      rewrite <- (Hf k Hne) in He.
+      destruct (IH s1 k x Hc He) as [I1 I2].
+      destruct (sess_run c s1 l) as [outs s2]. cbn [fst snd filter] in *. rewrite Ek. auto.
 Qed.
+
+(* ------------------------------------------------------------------ C05_session_history: the shadow
+   session.  One step of a session, tagged so that exactly the rejected RECEIVE operations count as
+   rejections (sending operations are never dropped) *)
+Definition as_res (o : sout) : res sout :=
+  match o with
+  | OTx _ => Ok o
+  | ORxRtp (Ok _) | ORxRtcp (Ok _) => Ok o
+  | ORxRtp (Err e) | ORxRtcp (Err e) => Err e
+  | ORxRtp Panic | ORxRtcp Panic => Panic
+  end.
+Definition sess_rstep (c : crypto) (s : session) (i : Z * sop) : res sout * session :=
+  let '(out, s') := sess_step c s (fst i) (snd i) in (as_res out, s').
+
+Lemma sess_rstep_reject c s i r s' : sess_rstep c s i = (r, s') -> is_ok r = false -> s' = s.
+Proof.
+  destruct i as [now o]. unfold sess_rstep. cbn [fst snd]. destruct o as [p|sp|pkt|pkt]; cbn [sess_step].
+  - destruct (sess_protect_rtp c s now p). intros H; inversion H; subst. discriminate.
+  - destruct (sess_unprotect_rtp c s now sp) as [r0 s0] eqn:E. intros H Hr; inversion H; subst.
+    pose proof (session_reject_preserves_rtp c s now sp) as P. rewrite E in P. cbn [fst snd] in P.
+    apply P. destruct r0; cbn in *; congruence.
+  - destruct (sess_protect_rtcp c s now pkt). intros H; inversion H; subst. discriminate.
+  - destruct (sess_unprotect_rtcp c s now pkt) as [r0 s0] eqn:E. intros H Hr; inversion H; subst.
+    pose proof (session_reject_preserves_rtcp c s now pkt) as P. rewrite E in P. cbn [fst snd] in P.
+    apply P. destruct r0; cbn in *; congruence.
+Qed.
+
+Theorem session_shadow c : forall l s,
+  dropped_rejected _ _ _ (sess_rstep c) s l = true ->
+  run _ _ _ (sess_rstep c) s (kept _ l) = run_kept _ _ _ (sess_rstep c) s l.
+Proof. intros l s. apply shadow. intros s0 i r s'. apply sess_rstep_reject. Qed.
+
+Theorem session_shadow_accepted c : forall l s,
+  run _ _ _ (sess_rstep c) s (kept _ (mark_accepted _ _ _ (sess_rstep c) s l)) =
+  (filter is_ok (fst (run _ _ _ (sess_rstep c) s l)), snd (run _ _ _ (sess_rstep c) s l)).
+Proof. intros l s. apply shadow_accepted. intros s0 i r s'. apply sess_rstep_reject. Qed.
 
 (* ---- C04_key_split: setup_srtp gives the two DTLS roles mirrored keys from the same exporter
    output, for every negotiated profile code (unknown codes fall back to the same default on both
@@ -254,19 +430,36 @@ Fixpoint w_flood (rx : session) (now : Z) (ssrc : Z) (n : nat) : session * bool 
             let '(rx2, all_rejected) := w_flood rx1 now (ssrc + 1) n' in (rx2, negb (is_ok o) && all_rejected)
   end.
 
-(* C05_context_table_refuted / C04_eviction_refuted: all four genuine packets are accepted; 61 s later
-   the next genuine packet is still accepted by the untouched receiver, but after 33 forged packets
-   (every one of them rejected) the same packet is refused: the forgeries filled the table and the
-   genuine context, idle for 60 s, was evicted together with its rollover counter *)
+(* n further genuinely authenticated streams (their own sender session), delivered at time `now` *)
+Fixpoint w_auth_flood (tx2 rx : session) (now ssrc : Z) (n : nat) : session :=
+  match n with
+  | O => rx
+  | S n' =>
+      let '(o, tx2') := sess_protect_rtp toy tx2 now (w_pkt ssrc 1) in
+      match o with
+      | Ok raw => match spkt_parse raw with
+                  | Some sp => w_auth_flood tx2' (snd (sess_unprotect_rtp toy rx now sp)) now (ssrc + 1) n'
+                  | None => rx
+                  end
+      | _ => rx
+      end
+  end.
+Definition w_tx2 : session := session_new SrtpProfile_Aes128Sha1_80 w_keys w_keys.
+
+(* After the F23 fix: the four genuine packets are accepted; 61 s later 33 forged packets with fresh
+   SSRCs are all rejected and leave the session EXACTLY as it was, so the next genuine packet is
+   accepted.  What remains of F23: 32 further *authenticated* SSRCs put 33 contexts into the table and
+   the genuine context, idle for 60 s, is evicted with its rollover counter (31 further SSRCs, or
+   59 s, lose nothing) *)
 Theorem eviction_witness :
   crypto_ok toy /\
   snd w_state = [true; true; true; true] /\
   w_next 61 (snd (fst w_state)) = true /\
   snd (w_flood (snd (fst w_state)) 61 1000 33) = true /\
-  w_next 61 (fst (w_flood (snd (fst w_state)) 61 1000 33)) = false /\
-  (* with 32 forgeries (no pressure yet) or within 60 s nothing is lost *)
-  w_next 61 (fst (w_flood (snd (fst w_state)) 61 1000 32)) = true /\
-  w_next 59 (fst (w_flood (snd (fst w_state)) 59 1000 33)) = true.
+  fst (w_flood (snd (fst w_state)) 61 1000 33) = snd (fst w_state) /\
+  w_next 61 (w_auth_flood w_tx2 (snd (fst w_state)) 61 2000 32) = false /\
+  w_next 61 (w_auth_flood w_tx2 (snd (fst w_state)) 61 2000 31) = true /\
+  w_next 59 (w_auth_flood w_tx2 (snd (fst w_state)) 59 2000 32) = true.
 Proof. split; [exact toy_ok|]. vm_compute. repeat split. Qed.
 
 (* the sending side has the same table: a sender with more than 32 SSRCs evicts a stream idle for 60 s
@@ -290,3 +483,10 @@ Theorem tx_eviction_witness :
   w_tx_next 61 (w_tx_flood tx 61 2000 32) rx = true /\
   w_tx_next 59 (w_tx_flood tx 59 2000 33) rx = true.
 Proof. vm_compute. repeat split. Qed.
+
+(* the premise of session_is_product is satisfiable (and decidable by evaluation) *)
+Example calm_example :
+  calm toy (session_new SrtpProfile_Aes128Sha1_80 w_keys w_keys)
+       [(0, SProtRtp (w_pkt 77 0)); (0, SProtRtp (w_pkt 78 5)); (1, SUnprotRtp (w_forged 9));
+        (2, SProtRtcp [128; 201; 0; 1; 0; 0; 0; 77]); (3, SUnprotRtcp (repeat 0 30))].
+Proof. vm_compute. repeat split; try (intro H; discriminate H). Qed.
